@@ -194,7 +194,7 @@ func describeRev(sc *RevScenario) any {
 	}
 	return map[string]any{
 		"profile": sc.Prof.Name, "config": []string{"fault_free", "network_faults", "byzantine", "everything"}[sc.Config],
-		"caller_start_offsets_ms": sc.StaggerMs, "cancellation_applies_to_caller_only": sc.CancelOnly, "fetcher": fetcherNames[sc.Fetcher], "discard_cache_error": sc.Discard, "cache_latency_ms": sc.CacheLatency.Milliseconds(), "cache_panics_in_set": sc.PanicInSet,
+		"caller_start_offsets_ms": sc.StaggerMs, "one_http_client_for_ocsp_and_crl": sc.SharedClient, "cancellation_applies_to_caller_only": sc.CancelOnly, "fetcher": fetcherNames[sc.Fetcher], "discard_cache_error": sc.Discard, "cache_latency_ms": sc.CacheLatency.Milliseconds(), "cache_panics_in_set": sc.PanicInSet,
 		"ocsp_timeout_ms": sc.OCSPTimeout.Milliseconds(), "crl_timeout_ms": sc.CRLTimeout.Milliseconds(),
 		"cancel": []string{"none", "before_call", "at", "deadline", "on_exchange_close"}[sc.Cancel], "cancel_after_ms": sc.CancelAfter.Milliseconds(),
 		"cancel_exchange_selector": sc.CancelXSel, "cancel_prefers_base_crl": sc.CancelXPreferCRL,
